@@ -1,7 +1,7 @@
 """C11 — connections never exceed max_connections; slots are reused (structural clauses)."""
 import re
 
-from .common import (fkey, where, short, arg_is_local, follow_value, block_line, terminal_field, awaited_value_local, classify_config_leaves, forget_scan, drop_sites, SERVER, CORE)
+from .common import (control, fkey, where, short, arg_is_local, follow_value, block_line, terminal_field, awaited_value_local, classify_config_leaves, forget_scan, drop_sites, SERVER, CORE)
 from ..facts import op_place, op_const, AnchorLost, is_test_body
 from .. import flow
 
@@ -127,9 +127,17 @@ def r2_hold_until_done(ctx):
             R.check(not sp, "C11.R2", "%s:%s-not-detached" % (fkey(b), w.name().split("::")[-1]), "%s is awaited by the future that owns the connection slot" % w.name().split("::")[-1], "%s is spawned onto a detached task in %s: when the request future is dropped (client abort) the slot is released while the handler keeps running" % (w.name().split("::")[-1], short(b.path)), where(w))
     # nobody but the ConnectionState holds the connection permit: no clone of the permit (or of the whole state) is made
     # in the server crate (a clone captured by a call task keeps the slot after the connection ended)
+    _permit_clone_scan(F, R, (SERVER,))
+    # background_task receives the state inside its params and nothing moves it elsewhere
+    bt = F.one(r"^jsonrpsee_server::transport::ws::background_task::\{closure#0\}$")
+    moved = [c for c in bt.calls if c.name() != "std::mem::drop" and any(op_place(a) is not None and not op_place(a).get("p") and bt.locals[op_place(a)["l"]]["ty"] == "jsonrpsee_server::server::ConnectionState" and "mv" in a for a in c.args)]
+    R.check(not moved, "C11.R2", "background_task:state-not-moved-away", "background_task keeps the ConnectionState itself", "background_task moves the ConnectionState into %s" % [short(c.name()) for c in moved], "%s:%d" % (bt.file, bt.lo))
+
+
+def _permit_clone_scan(F, R, crates):
     clones = []
     for b in F.real_bodies():
-        if b.crate != SERVER or is_test_body(b):
+        if b.crate not in crates or is_test_body(b):
             continue
         derived = b.path.endswith("::clone") and (b.impl_trait or "").endswith("Clone")
         for c in b.calls:
@@ -138,10 +146,6 @@ def r2_hold_until_done(ctx):
                 if ("OwnedSemaphorePermit" in st_ or st_ == "jsonrpsee_server::server::ConnectionState") and not derived:
                     clones.append(c)
     R.check(not clones, "C11.R2", "permit-not-cloned", "the connection permit / ConnectionState is never cloned inside the server", "the connection permit (or the ConnectionState that owns it) is cloned in %s: whoever holds the clone keeps the connection slot after the connection finished" % [fkey(c.body) for c in clones], where(clones[0]) if clones else None)
-    # background_task receives the state inside its params and nothing moves it elsewhere
-    bt = F.one(r"^jsonrpsee_server::transport::ws::background_task::\{closure#0\}$")
-    moved = [c for c in bt.calls if c.name() != "std::mem::drop" and any(op_place(a) is not None and not op_place(a).get("p") and bt.locals[op_place(a)["l"]]["ty"] == "jsonrpsee_server::server::ConnectionState" and "mv" in a for a in c.args)]
-    R.check(not moved, "C11.R2", "background_task:state-not-moved-away", "background_task keeps the ConnectionState itself", "background_task moves the ConnectionState into %s" % [short(c.name()) for c in moved], "%s:%d" % (bt.file, bt.lo))
 
 
 def r3_no_forget(ctx):
@@ -191,3 +195,14 @@ LEVEL_TEXT = (
 )
 LEVEL_NOTE = "Trusted: rustc MIR; tokio Semaphore RAII; hyper drops cancelled futures. Not decided: the count at every instant."
 TECHNIQUE = "dominance (acquire-before-serve, release-after-completion over all drop sites) + forbidden-call scan + provenance tracing"
+
+
+def control_forget(ctx):
+    control(ctx, "C11.R3", "mem::forget / add_permits / permit.forget", lambda r: forget_scan(ctx.F, r, "C11.R3", ("verif_fixtures",), floor=1))
+
+
+def control_permit_clone(ctx):
+    control(ctx, "C11.R2", "Arc<OwnedSemaphorePermit>::clone", lambda r: _permit_clone_scan(ctx.F, r, ("verif_fixtures",)))
+
+
+CONTROLS = [control_forget, control_permit_clone]
